@@ -40,7 +40,8 @@ def recintModel (op : String) (n t : Nat) (a : List Nat) : Option (List Int) :=
   | "lmuln", [b, c] => some (hl (lmul_naive t (U b) (U c)))
   | "lmulk", [b, c] => some (hl (lmul_kara t (U b) (U c)))
   | "lmul2", [b, c] => some [vi (lmul t (U b) (U c))]
-  | "mul", [b, c] | "mulip", [b, c] | "mulop", [b, c] => some [vi (mul t (U b) (U c))]
+  | "mul", [b, c] | "mulip", [b, c] | "mulop", [b, c] | "mulal1", [b, c] | "mulal2", [b, c] | "mulstar", [b, c] => some [vi (mul t (U b) (U c))]
+  | "mulself", [b] => some [vi (mul t (U b) (U b)), vi (mul t (U b) (U b))]
   | "lmull", [b, c] => let r := lmul_l (U b) c; some [(r.2 : Int), vi r.1]
   | "mull", [b, c] | "mullip", [b, c] => some [vi (mul_l (U b) c)]
   | "lsq", [b] => some [vi (lsquare t (U b))]
@@ -76,6 +77,17 @@ def recintModel (op : String) (n t : Nat) (a : List Nat) : Option (List Int) :=
   | "arazi", [x] => some [vi (arazi_qi t (U x))]
   | _, _ => none
 
+/-- conversions: the argument is a (possibly negative) big integer -/
+def recintConvModel (op : String) (n : Nat) (a : List Int) : Option (List Int) :=
+  let toS (v : Nat) : Int := if v < Bn n / 2 then (v : Int) else (v : Int) - (Bn n : Int)
+  match op, a with
+  | "cmpsl", [x, w] => some [if w < 0 then 1 else cmp_l (ofNat n x.toNat) w.toNat]       -- cmp(ruint, signed T)
+  | "cvu_from", [z] => some (List.replicate 7 (vi (mpz_to_ruint n z)))
+  | "cvu_back", [z] => some (List.replicate 4 (ruint_to_mpz (ofNat n z.toNat)))
+  | "cvs_from", [z] => some (List.replicate 7 (toS (val (mpz_to_rint n z))))
+  | "cvs_back", [z] => some (List.replicate 4 (rint_to_mpz (ofNat n (z % (Bn n : Int)).toNat)))
+  | _, _ => none
+
 def recintLine (line : String) : String :=
   match splitLine line with
   | none => "BAD empty"
@@ -93,7 +105,7 @@ def recintLine (line : String) : String :=
           | none => if res == ["EXC"] then s!"DIFF kind=SPEC model=- | {line.trimAscii.toString}" else "BAD result | " ++ line
           | some ir =>
             let specOk := chk ir
-            let model := recintModel op (K - 6) t (a.map Int.toNat)
+            let model := if op.startsWith "cv" || op == "cmpsl" then recintConvModel op (K - 6) a else recintModel op (K - 6) t (a.map Int.toNat)
             let modelOk := match model with | none => true | some mr => mr == ir
             if specOk && modelOk then "OK"
             else
